@@ -351,9 +351,27 @@ class Eval:
                         for lid in self.mutated_locals(body):
                             if lid in env and not (isinstance(env[lid], tuple) and env[lid][:1] == ("acc",)):
                                 env[lid] = ("acc", env[lid])
+                        # `for x in xs.iter_mut()` (possibly enumerated): what the body does to x in place, it does to every element of xs
+                        mroot = self.iter_mut_root(iterable)
+                        ids_ = [b_["id"] for b_ in pat_bindings(pat)] if mroot is not None else []
+                        before_ = {i_: env.get(i_) for i_ in ids_}
                         self.loops.append(it)
                         self.effect(body, env, depth)
                         self.loops.pop()
+                        for i_ in ids_:
+                            t_ = env.get(i_)
+                            ops_ = []
+                            while isinstance(t_, tuple) and t_[:1] == ("upd",) and t_ != before_[i_]:
+                                ops_.append(t_)
+                                t_ = t_[1]
+                            if ops_ and t_ == before_[i_]:
+                                base_ = env.get(mroot[0], ("unknown", "unbound"))
+                                if not (isinstance(base_, tuple) and base_[:1] == ("acc",)):
+                                    base_ = ("acc", base_)
+                                for o_ in reversed(ops_):
+                                    base_ = ("upd", base_, "each-%s%s" % (o_[2], ("@" + mroot[1]) if mroot[1] else ""), o_[3])
+                                env[mroot[0]] = base_
+                                self.write_back(mroot[0], env)
                     return
             if str(e.get("src", "")).startswith("TryDesugar"):
                 self.expr(e, env, depth)
@@ -504,6 +522,26 @@ class Eval:
         if isinstance(cur, dict) and cur.get("k") == "MethodCall" and cur.get("method") in ("last_mut", "first_mut", "get_mut", "as_mut", "iter_mut", "as_deref_mut"):
             return self.root_local(cur["recv"])
         return None
+
+    def iter_mut_root(self, iterable):
+        """(local id, field path) when the for-loop iterable is `L.iter_mut()` / `L.f.iter_mut()` / `&mut L.f`, possibly under enumerate()"""
+        cur = strip(iterable)
+        while isinstance(cur, dict) and cur.get("k") == "MethodCall" and cur.get("method") in ("enumerate", "into_iter", "by_ref"):
+            cur = strip(cur["recv"])
+        if isinstance(cur, dict) and cur.get("k") == "Call" and cur.get("args") and len(cur["args"]) == 1 and callee(cur).endswith("into_iter"):
+            cur = strip(cur["args"][0])
+        target = None
+        if isinstance(cur, dict) and cur.get("k") == "MethodCall" and cur.get("method") == "iter_mut":
+            target = cur["recv"]
+        elif isinstance(cur, dict) and cur.get("k") == "Ref" and cur.get("mut"):
+            target = cur["e"]
+        if target is None:
+            return None
+        root = self.root_local(target)
+        if root is None:
+            return None
+        fp = hq.field_path(target)
+        return root, (fp.split(".", 1)[1] if fp and "." in fp else "")
 
     def write_back(self, root, env):
         """root was updated in place; if it aliases a part of another local, that local now holds the updated part"""
